@@ -150,6 +150,19 @@ theorem Conns.get_erase (d : Nat) : ∀ (c : Conns) (k : Nat), Conns.get (Conns.
       · subst hk; simp [h0]
       · simp [hk]
 
+theorem Conns.get_append (c : Conns) (d : Nat) (ps : List Nat) (k : Nat) :
+    Conns.get (c ++ [(d, ps)]) k = match Conns.get c k with
+      | some x => some x
+      | none => if d = k then some ps else none := by
+  induction c with
+  | nil => simp [Conns.get]
+  | cons a r ih =>
+    obtain ⟨d0, p0⟩ := a
+    simp only [List.cons_append, Conns.get]
+    by_cases h : d0 = k
+    · simp [h]
+    · simp only [h, if_false]; exact ih
+
 theorem step_conns (v : Variant) (s : DState) (op : Op) (k : Nat) :
     ((step v s op).1.conns.get k).isSome = match op with
       | .up d _ => if d = k then true else (s.conns.get k).isSome
@@ -158,11 +171,12 @@ theorem step_conns (v : Variant) (s : DState) (op : Op) (k : Nat) :
   cases op with
   | tick dt => rfl
   | up d ps =>
-    simp only [step, Conns.get]
+    simp only [step, Conns.get_append, Conns.get_erase]
     by_cases h : d = k
-    · simp [h]
+    · subst h; simp
     · have : k ≠ d := fun e => h e.symm
-      simp [h, Conns.get_erase, this]
+      simp only [this, if_false, h]
+      cases Conns.get s.conns k <;> simp
   | down d o =>
     simp only [step, deleteLinks_conns, Conns.get_erase]
     by_cases h : d = k
